@@ -112,6 +112,44 @@ def run(ctx):
                       'handler `%s` returns to the loop head' % n.text(), key=('V1', 'handler', n.text()),
                       site=ctx.site(ml, n.ast))
 
+    # the handlers are the last line of defence: what they raise themselves leaves main_loop.  They run after an iteration was cut
+    # short at an unknown point, so every name the loop body binds holds whatever the interrupted section (or an earlier iteration)
+    # left there - None, a datagram's (host, port) pair, an address object.  Formatting such a value is total; subscripting it,
+    # reading an attribute of it, calling a method on it or computing with it is not.
+    stored = {x.id for x in ast.walk(loop) if isinstance(x, ast.Name) and isinstance(x.ctx, (ast.Store, ast.Del))}
+    nh = 0
+    for t in [x for x in ast.walk(loop) if isinstance(x, ast.Try)]:
+        for h in t.handlers:
+            nh += 1
+            own = {h.name} if h.name else set()
+            own |= {x.id for st in h.body for x in ast.walk(st) if isinstance(x, ast.Name) and isinstance(x.ctx, ast.Store)}
+
+            def base(e):
+                while isinstance(e, (ast.Attribute, ast.Subscript)):
+                    e = e.value
+                return e.id if isinstance(e, ast.Name) else None
+            for st in h.body:
+                for x in ast.walk(st):
+                    operand = None
+                    if isinstance(x, (ast.Subscript, ast.Attribute)) and isinstance(x.ctx, ast.Load):
+                        operand = x.value
+                    elif isinstance(x, ast.BinOp):
+                        operand = x.left if base(x.left) in stored - own else x.right
+                    elif isinstance(x, ast.UnaryOp) and not isinstance(x.op, ast.Not):
+                        operand = x.operand
+                    elif isinstance(x, (ast.For, ast.comprehension)):
+                        operand = x.iter
+                    elif isinstance(x, ast.Starred):
+                        operand = x.value
+                    b = base(operand) if operand is not None else None
+                    if b is not None and b in stored - own:
+                        ctx.bad('V1', ('V1', 'handler-operates-on-loop-local', b),
+                                'the handler `except %s` of the event loop computes with `%s`, which holds whatever the interrupted '
+                                'iteration (or an earlier one) left in it: `%s` can raise inside the handler and end main_loop' % (
+                                    src(h.type) if h.type is not None else '', b, src(x)[:60]), ctx.site(ml, x), {})
+    ctx.floor('V1 handlers of the event loop', nh, 1)
+    if not any(tuple(v['key'])[1:2] == ('handler-operates-on-loop-local',) for v in ctx.violations):
+        ctx.ok('V1', 'the %d handler(s) of the event loop only format the values the interrupted iteration left behind' % nh, ctx.site(ml, loop))
     common.parse_errors_propagate(ctx, 'V4')
     # ---------------------------------------------------------------- V2
     # a DELETED entry leaves the table only after its kernel SAs were removed: that removal must not be able to fail on an SA
